@@ -387,7 +387,7 @@ def _int_bits(t):
     return (m.group(1), 64 if m.group(2) == 'size' else int(m.group(2)))
 
 
-def narrowing_casts(body, ia):
+def narrowing_casts(body, ia, upvar_interval=None):
     """(bb, line, source type, target type, canonical operand, discharged) for every integer `as` cast that can change the
     value (narrower target, or signed <-> unsigned); discharged when the interval of the operand fits the target type"""
     from . import eng_po
@@ -416,6 +416,11 @@ def narrowing_casts(body, ia):
                 dis = v is not None and v[0] not in ('ovf', 'tup') and rng is not None and rng[0] <= v[0] and v[1] <= rng[1]
             elif ia is not None:
                 dis = True
+            if not dis and upvar_interval is not None and pl is not None:
+                # a captured variable: its interval is the one of the operand captured where the closure is built
+                v = upvar_interval(body, o)
+                rng = eng_po.ty_range(s['r']['ty'])
+                dis = v is not None and v[0] not in ('ovf', 'tup') and rng is not None and rng[0] <= v[0] and v[1] <= rng[1]
             out.append({'bb': bb, 'where': body.loc(bb, i), 'from': sty, 'to': s['r']['ty'],
                         'ops': eng_po.alpha(eng_po.canon_expr(body, o, names)), 'discharged': dis})
     return out
